@@ -126,7 +126,7 @@ Qed.
 
 (* ---------- one step of one message, with what the hook gets ---------- *)
 Lemma local_step r log k sq md uid :
-  (2 <= k)%nat ->
+  (2 <= k)%nat -> (k <= 255)%nat ->
   (forall i j, (i < k)%nat -> (j < k)%nat -> sq i = sq j -> i = j) ->
   (forall i j, (i < k)%nat -> (j < k)%nat -> md i = md j -> i = j) ->
   forall s ph lrc g,
@@ -134,19 +134,19 @@ Lemma local_step r log k sq md uid :
   exists s' out, hstep s (conc r log k sq md uid g) = (s', out) /\ agrees (expected log k ph lrc g) out
                  /\ GI r log k sq md uid s' (fst (after ph lrc g)) (snd (after ph lrc g)) /\ first_first k (fst (after ph lrc g)).
 Proof.
-  intros Hk Hsq Hmd s ph lrc g HG Hff Hen. destruct g as [i|i u|i u e]; cbn [enabled] in Hen.
+  intros Hk Hk255 Hsq Hmd s ph lrc g HG Hff Hen. destruct g as [i|i u|i u e]; cbn [enabled] in Hen.
   - destruct Hen as (Hi & Hp & Hord).
     assert (i = 0%nat -> forall j, (j < k)%nat -> ph j = PNot) as Hfirst by (intros ->; apply Hff; exact Hp).
-    destruct (put_step r log k sq md uid Hk Hsq s ph lrc i HG Hi Hp Hfirst Hord) as (s' & Hs & HG').
+    destruct (put_step r log k sq md uid Hk Hk255 Hsq s ph lrc i HG Hi Hp Hfirst Hord) as (s' & Hs & HG').
     exists s', []. cbn [conc]. split; [exact Hs|]. split; [exact I|]. split; [exact HG'|].
     cbn [after fst]. intros Hz j Hj. unfold HandlersProofs.upd in Hz. destruct (Nat.eqb 0 i) eqn:E0; [discriminate|].
     apply Nat.eqb_neq in E0. exfalso. apply (Hord ltac:(lia)). exact Hz.
-  - destruct Hen as [Hi Hp]. destruct (resp_ok_step r log k sq md uid Hk Hsq Hmd s ph lrc i u HG Hi Hp) as (s' & out & Hs & HG').
+  - destruct Hen as [Hi Hp]. destruct (resp_ok_step r log k sq md uid Hk Hk255 Hsq Hmd s ph lrc i u HG Hi Hp) as (s' & out & Hs & HG').
     exists s', out. cbn [conc hstep]. split; [exact Hs|]. split; [exact I|]. split; [exact HG'|].
     cbn [after fst]. intros Hz j Hj. unfold HandlersProofs.upd in Hz. destruct (Nat.eqb 0 i) eqn:E0; [discriminate|].
     specialize (Hff Hz i Hi). rewrite Hff in Hp. discriminate.
   - destruct Hen as (Hi & Hp & He).
-    destruct (receipt_step r log k sq md uid Hk Hsq Hmd s ph lrc i {| rc_uid := u; rc_id := md i; rc_err := e |} HG Hi Hp eq_refl He) as (s' & HG' & Hs).
+    destruct (receipt_step r log k sq md uid Hk Hk255 Hsq Hmd s ph lrc i {| rc_uid := u; rc_id := md i; rc_err := e |} HG Hi Hp eq_refl He) as (s' & HG' & Hs).
     cbn [rc_uid rc_err] in *. eexists s', _. cbn [conc hstep]. split; [exact Hs|]. split; [cbn [agrees expected after]; reflexivity|].
     split; [exact HG'|].
     cbn [after fst]. intros Hz j Hj. unfold HandlersProofs.upd in Hz. destruct (Nat.eqb 0 i) eqn:E0; [discriminate|].
@@ -155,12 +155,12 @@ Qed.
 
 (* what an enabled event of a message can touch, in terms of that message's own keys *)
 Lemma local_footprint r log k sq md uid s ph lrc g :
-  (2 <= k)%nat ->
+  (2 <= k)%nat -> (k <= 255)%nat ->
   GI r log k sq md uid s ph lrc -> enabled k ph g ->
   exists i, (i < k)%nat /\ fp2 (sq i) (md i) (fun key => key <> HandlersProofs.K r sq) s (fst (hstep s (conc r log k sq md uid g)))
             /\ cur_foot (fun ref => match g with GPut _ => ref <> r | _ => True end) s (fst (hstep s (conc r log k sq md uid g))).
 Proof.
-  intros Hk HG Hen. destruct g as [i|i u|i u e]; cbn [enabled] in Hen; cbn [conc].
+  intros Hk Hk255 HG Hen. destruct g as [i|i u|i u e]; cbn [enabled] in Hen; cbn [conc].
   - destruct Hen as (Hi & Hp & Hord). exists i. split; [exact Hi|].
     pose proof (put_fp2 s (seg r log k sq uid i) (md i)) as F. unfold seg in F at 1. cbn [sm_seq] in F.
     destruct (put_footprint s (seg r log k sq uid i)) as [_ C]. unfold seg in C at 1. cbn [sm_sar fst] in C. split; [|exact C].
@@ -171,8 +171,8 @@ Proof.
         destruct HG as [(_ & _ & Hc & _) Hcur].
         rewrite (Hcur (Hord N0) (ex_intro _ i (conj Hi Hp))).
         assert (forallb (fun a => is_not (ph a)) (idx k) = false) as Fn.
-        { apply (forallb_idx_false k Hk _ 0%nat ltac:(lia)). specialize (Hord N0). destruct (ph 0%nat); try reflexivity. contradiction. }
-        assert (forallb (fun a => is_done (ph a)) (idx k) = false) as Fd by (apply (forallb_idx_false k Hk _ i Hi); rewrite Hp; reflexivity).
+        { apply (forallb_idx_false k Hk Hk255 _ 0%nat ltac:(lia)). specialize (Hord N0). destruct (ph 0%nat); try reflexivity. contradiction. }
+        assert (forallb (fun a => is_done (ph a)) (idx k) = false) as Fd by (apply (forallb_idx_false k Hk Hk255 _ i Hi); rewrite Hp; reflexivity).
         rewrite Fn, Fd in Hc. cbn [orb] in Hc. destruct Hc as (cell & -> & _). reflexivity. }
     rewrite Ek in F. exact F.
   - destruct Hen as (Hi & Hp). exists i. split; [exact Hi|].
@@ -200,7 +200,7 @@ Section ConcurrentReceipts.
   Variable n : nat.
   Variable D : nat -> mdesc2.
   Hypothesis D_ok : forall j, (j < n)%nat ->
-    (2 <= m2_k (D j))%nat /\ 0 <= m2_r (D j) < 65536
+    (2 <= m2_k (D j) <= 255)%nat /\ 0 <= m2_r (D j) < 65536
     /\ (forall a b, (a < m2_k (D j))%nat -> (b < m2_k (D j))%nat -> m2_sq (D j) a = m2_sq (D j) b -> a = b)
     /\ (forall a b, (a < m2_k (D j))%nat -> (b < m2_k (D j))%nat -> m2_md (D j) a = m2_md (D j) b -> a = b).
   (* distinct sequence numbers and SMSC message ids among the outstanding messages; their references may coincide *)
@@ -239,16 +239,16 @@ Section ConcurrentReceipts.
     exists s' out, hstep s (gconc2 e) = (s', out) /\ agrees (gexpected2 PH LRC e) out /\ MI2 s' (fst (gafter2 PH LRC e)) (snd (gafter2 PH LRC e)).
   Proof.
     intros HM (Hj & Hen & Hdisc). destruct e as [j g]. cbn [fst snd] in *.
-    destruct (D_ok j Hj) as (Hk & Hrj & Hsq & Hmd). destruct (HM j Hj) as [HGj Hffj].
-    destruct (local_step _ _ _ _ _ _ Hk Hsq Hmd s (PH j) (LRC j) g HGj Hffj Hen) as (s' & out & Hs & Hag & HG' & Hff').
-    destruct (local_footprint _ _ _ _ _ _ s (PH j) (LRC j) g Hk HGj Hen) as (a & Ha & (F1 & F2 & F3 & F4) & F5).
+    destruct (D_ok j Hj) as ([Hk Hk255] & Hrj & Hsq & Hmd). destruct (HM j Hj) as [HGj Hffj].
+    destruct (local_step _ _ _ _ _ _ Hk Hk255 Hsq Hmd s (PH j) (LRC j) g HGj Hffj Hen) as (s' & out & Hs & Hag & HG' & Hff').
+    destruct (local_footprint _ _ _ _ _ _ s (PH j) (LRC j) g Hk Hk255 HGj Hen) as (a & Ha & (F1 & F2 & F3 & F4) & F5).
     exists s', out. split; [exact Hs|]. split; [exact Hag|].
     unfold gafter2. cbn [fst snd]. intros i Hi. destruct (Nat.eq_dec i j) as [->|Hne].
     - unfold GIj. rewrite !ConcurrentProofs.upd_same. split; assumption.
     - unfold GIj. rewrite !ConcurrentProofs.upd_other by exact Hne.
       destruct (HM i Hi) as [HGi Hffi]. split; [|exact Hffi].
       unfold gconc2 in Hs. cbn [fst snd] in Hs. rewrite Hs in F1, F2, F3, F4, F5. cbn [fst] in F1, F2, F3, F4, F5.
-      destruct (D_sep i j Hi Hj Hne) as (Hsqd & Hmdd). destruct (D_ok i Hi) as (Hki & Hri & _).
+      destruct (D_sep i j Hi Hj Hne) as (Hsqd & Hmdd). destruct (D_ok i Hi) as ([Hki _] & Hri & _).
       destruct HG' as [(_ & _ & _ & _ & _ & _ & N1 & N2 & N3 & N4) _].
       apply (GI_frame _ _ _ _ _ _ s s' _ _ HGi).
       + intros b Hb. apply F1. apply Hsqd; assumption.
@@ -302,7 +302,7 @@ Section ConcurrentReceipts.
   Qed.
 
   Lemma MI2_init : MI2 hinit (fun _ _ => PNot) (fun _ => None).
-  Proof. intros j Hj. destruct (D_ok j Hj) as (Hk & _). split; [apply GI_init; exact Hk|intros _ i _; reflexivity]. Qed.
+  Proof. intros j Hj. destruct (D_ok j Hj) as ([Hk Hk255] & _). split; [apply GI_init; assumption|intros _ i _; reflexivity]. Qed.
 
   (* the receipts of message j reach the hook exactly as if message j were the only one: placeholders until the receipt that
      completes it, then one receipt event with its identity - whatever the other messages' puts, responses and receipts do in between *)
